@@ -108,7 +108,7 @@ Qed.
 (* ---------- simulation under a state condition (memory accesses must not wrap the address space) ---------- *)
 Definition sim_when (P : xstate -> Prop) (m : mode) (addr len : Z) (i : instr) : Prop :=
   forall s st s' ip, wf m s -> emb m s st -> P s -> step m (addr + len) i s = XNext s' ip ->
-  exists g, mirror_instr m addr i = Some (Ok g) /\
+  exists g, mirror_instr m addr len i = Some (Ok g) /\
   exists st', run_instr 600 g (mirror_succ m addr len i) addr st = RunOk st' (Some ip) /\ emb m s' st' /\ wf m s'.
 (* the bytes [ea, ea + sz/8) of a memory operand lie inside the address space of its address size *)
 Definition no_wrap (sz : Z) (o : operand) (s : xstate) : Prop := ea (x_gpr s) o + sz / 8 <= 2 ^ op_asz o.
